@@ -583,7 +583,12 @@ def run_case_local(case):
                 if x1 is not None:
                     for b2 in ("/second/dir", None):
                         try:
-                            x2 = io.load(target, audio_dir=b2)
+                            # the later loads also spell the other options out: format inferred from the file (format=None) together
+                            # with a directory; format and collection type given explicitly without one
+                            if b2 is not None:
+                                x2 = io.load(target, audio_dir=b2, format=None)
+                            else:
+                                x2 = io.load(target, audio_dir=b2, format="aoef", type=kind)
                         except Exception as e:  # noqa
                             out.fail("load_history_independent", {"load_raised": exc_repr(e)}, "second load succeeds",
                                      {"b2": "none" if b2 is None else "abs:str", "why": "load_raised:" + type(e).__name__}, None)
